@@ -344,8 +344,8 @@ def run_unit(u, b, keep=None, trace=False, use_cache=True):
         # vacuity: the canary must be reachable (i.e. reported FAILED)
         can = [o for o in res['obligations'] if o['cls'] == 'vacuity']
         if not can or any(o['status'] != 'FAILURE' for o in can):
-            res['error'] = 'vacuity canary not reached: the unit\'s preconditions are unsatisfiable or the function ' \
-                           'cannot return'
+            res['error'] = res['error'] or 'vacuity canary not reached: the unit\'s preconditions are unsatisfiable or the ' \
+                                           'function cannot return'
         if any(o['cls'] == 'unwind' and o['status'] == 'FAILURE' for o in res['obligations']):
             res['error'] = res['error'] or 'an unwinding assertion failed: the unwind bound of this unit is too small ' \
                                            'for the code as it is now (undecided, not a violation)'
